@@ -72,6 +72,11 @@ func IndexFromReader(r io.Reader) (c Index, err error) {
 	c.Chunks = make([]IndexChunk, len(table.Items))
 	var lastOffset uint64
 	for i, r := range table.Items {
+		// The table holds the end offset of each chunk so it can't go backwards.
+		// Don't rely on the max size check below for this, the subtraction wraps.
+		if r.Offset < lastOffset {
+			return c, errors.New("chunk offsets in index table are decreasing")
+		}
 		c.Chunks[i].ID = r.Chunk
 		c.Chunks[i].Start = lastOffset
 		c.Chunks[i].Size = r.Offset - lastOffset
